@@ -11,6 +11,7 @@ package vsched
 
 import (
 	"fmt"
+	"math"
 	"hash/fnv"
 	"os"
 	"reflect"
@@ -443,6 +444,7 @@ func TimeNow() time.Time {
 	return base.Add(time.Duration(o.rtime))
 }
 func TimeSince(t time.Time) time.Duration { return TimeNow().Sub(t) }
+func TimeUntil(t time.Time) time.Duration { return t.Sub(TimeNow()) }
 func TimeSleep(d time.Duration) {
 	s := S
 	if s == nil || !s.active || s.Mode == ClockFrozen {
@@ -637,7 +639,11 @@ func (s *Sched) apply(tr trans) {
 		note(uint64(s.clock))
 	case KSleep:
 		if o.dur > 0 {
-			s.clock += int64(o.dur)
+			if s.clock > math.MaxInt64-int64(o.dur) {
+				s.clock = math.MaxInt64 // the virtual clock saturates instead of wrapping
+			} else {
+				s.clock += int64(o.dur)
+			}
 		}
 		note(uint64(s.clock))
 	case KClose:
